@@ -64,6 +64,7 @@ def directed_cases(seed: int, tier: str) -> typing.List[dict]:
         ("ext-stem", {"ext": ".inc", "ns_stem": "nsfile", "ns_types": True}),
         ("empty-root", {"root": "emptyroot", "lookups": []}),
         ("verbose", {"verbosity": "-v"}),
+        ("templates-with-syntax-error-after-earlier-run", {"templates": "broken_syntax"}),
         ("user-support-read-refused", {"support_templates": "override", "support_read_fault": "EACCES"}),
         ("config-file-extension-stem", {"cfg_doc": {"extension": ".gen.h", "namespace_file_stem": "pkg"}, "ns_types": True, "templates": "by_kind"}),
         ("config-file-support-namespace", {"cfg_doc": {"support_namespace": "acme.support"}}),
@@ -326,7 +327,10 @@ def run_case(case: dict, ctx: dict) -> dict:
     # plant the user template sets the option sets name
     tpl_used = {}  # type: typing.Dict[str, typing.Dict[str, str]]
     for o in [opts] + [d["opts"] for d in dirty if d["op"] == "generate"]:
-        if o.get("templates"):
+        if o.get("templates") == "broken_syntax":
+            # the user's templates were fine for an earlier run and have a syntax error now (an edit gone wrong)
+            tpl_used["broken_syntax"] = dict(usertpl.SETS["by_kind"], **{k: v + "\n{% if %}\n" for k, v in usertpl.SETS["by_kind"].items() if k in ("StructureType.j2", "UnionType.j2", "DelimitedType.j2", "ServiceType.j2")})
+        elif o.get("templates"):
             tpl_used[o["templates"]] = usertpl.SETS[o["templates"]]
         if o.get("support_templates"):
             name = "%s-%s" % (o["support_templates"], o["lang"])
@@ -395,6 +399,29 @@ def run_case(case: dict, ctx: dict) -> dict:
     }
     if not ref["ok"]:
         bump("ops", "skipped-real-run-fails:" + ref["res"]["status"])
+        if O.get("templates") == "broken_syntax" or O.get("support_read_fault"):
+            # Generation fails here (a template with a syntax error, a template that cannot be read), so nothing is claimed about
+            # WHAT the listing modes print - but they still "create, modify or delete nothing on disk": an earlier, successful run
+            # (with the built-in templates) populated the directory, then every mode is run and only its effects are judged.
+            earlier = {k: v for k, v in O.items() if k not in ("templates", "support_templates", "support_read_fault", "ns_types")}
+            res0 = proc.run_invocation(world.invocation(without_env_lookups(earlier), **{k: v for k, v in env_plan(earlier).items() if k != "read_faults"}))
+            evaluations += 1
+            if nnvg.succeeded(res0):
+                for mode in ("list_outputs", "list_inputs", "dry_run"):
+                    o = dict(without_env_lookups(O), mode=mode)
+                    before = snapshot.snapshot(world.sandbox, with_mtime=True)
+                    res = proc.run_invocation(world.invocation(o, enum_seed=enum_seed, **env_plan(O)))
+                    evaluations += 1
+                    after = snapshot.snapshot(world.sandbox, with_mtime=True)
+                    bump("ops", "%s@populated-while-generation-would-fail" % mode)
+                    brief = {"mode": mode, "phase": "populated, generation would fail", "status": res["status"], "argv": world.argv(o)[1:], "exc": res.get("exc_msg", "")[:300]}
+                    muts = _mutations(res)
+                    if muts:
+                        violation("listing-mutates:%s:%s" % (mode, muts[0][0]), dict(brief, mutations=muts[:6]))
+                    d = snapshot.diff(before, after)
+                    if d:
+                        violation("listing-changes-disk:%s" % mode, dict(brief, diff=d[:6]))
+                return {"violations": violations, "evaluations": evaluations, "executed": exec_case, "counters": counters, "states": [], "nontrivial_keys": ["failing-generation|%s|%s" % (O["lang"], O.get("templates") or "read-fault")], "sim_time_s": 0.0, "sample": {"opts": opts, "failing_generation": True}, "digest": hashlib.sha256(repr(sorted(v["signature"] for v in violations)).encode()).hexdigest()[:16]}
         return {"violations": [], "evaluations": evaluations, "skipped": 1, "executed": exec_case, "counters": counters, "states": [], "nontrivial_keys": []}
     out_abs = world.out_dir
     created = {os.path.realpath(os.path.join(out_abs, p)) for p in ref["files"]}
